@@ -11,6 +11,21 @@ CHECKS = {
             "Randomised exploration of histories x pipeline schedules x column options against a naive map model; every key of the universe is read after every operation. Cannot prove absence; it makes 'several commits at different stages' the common case instead of unreachable.",
             "Trusts the repository's `instrumentation` stepping API to be the same code the workers run (it calls the same DbInner methods); value = f(key) on preimage columns.",
             "DESIGN.md 4 C01", "pdbv"),
+    "C02": ("fault_enumeration",
+            "fault/crash-point enumeration over generated histories: every file-operation index of every pipeline step -> directory image (+ generated log-tail cut, + crashes inside recovery) -> reopen -> prefix oracle against the model; shrinking to (scenario, stop point) JSON replay",
+            "For each generated scenario every stop point inside every pipeline op is enumerated (sampled above a cap), so recovery is exercised at every file-operation boundary the library has, recursively inside recovery. The oracle is the prefix-state set of a naive model. Bounded by scenario size; absence is not established.",
+            "Crash = process stop at one of the library's try_io! sites (repository feature `instrumentation`), image = directory copy at that instant; the injected error stands for the stop (code that runs after the error on its way out performs no further file operation because the injector keeps failing).",
+            "DESIGN.md 4 C02", "pdbv"),
+    "C03": ("exploration",
+            "model-based PBT over drop points (stepping mode and real worker threads) + stop-point enumeration with the synced-transactions lower bound",
+            "(a) generated histories dropped at arbitrary pipeline states then reopened must show every accepted commit; (b) crash images must recover to a prefix that contains every transaction whose log record had been synced. Exploration-level: sampled histories, enumerated stop points inside each.",
+            "sync_wal=true makes a returned flush_logs step a durability point; process-crash model (page loss is C12).",
+            "DESIGN.md 4 C03", "pdbv"),
+    "C04": ("exploration",
+            "model-based stateful PBT: cursor state machine {Start,End,Seeked,At} against a sorted-map model, one iterator kept open across commits/steps; independent on-disk tree walk after drain",
+            "Generated histories of commits (incl. bulk insert/delete forcing splits, merges, root changes), pipeline steps and iterator calls; every iterator answer is compared with the model at the time of the call; the on-disk tree is re-parsed by an independent reader (sorted, uniform depth, values resolve).",
+            "seek_to_first is seek(\"\"); the raw layout reader is an independent re-implementation of the documented file formats.",
+            "DESIGN.md 4 C04", "pdbv"),
 }
 
 NOT_YET = {
